@@ -429,6 +429,19 @@ class NetCDFVariable(NetCDFOnDisk):
     def __array__(self):
         return self.values[()].__array__ # returns a numpy array
     
+def _within_bounds(idx, size, n):
+    """ True if the position index `idx`, which addresses `n` elements, addresses a proper part
+    of an axis of current length `size` (False when it reaches beyond the end, or spans the whole axis)
+    """
+    if type(idx) is slice:
+        if idx == slice(None):
+            return False
+        return len(range(*idx.indices(size))) == n
+    idx = np.asarray(idx)
+    if idx.dtype.kind == 'b':
+        return idx.size <= size
+    return idx.size == 0 or (idx.max() < size and idx.min() >= -size)
+
 class DimArrayOnDisk(GetSetDelAttrMixin, NetCDFVariable, AbstractDimArray):
     _constructor = DimArray
     _broadcast = False
@@ -483,17 +496,18 @@ class DimArrayOnDisk(GetSetDelAttrMixin, NetCDFVariable, AbstractDimArray):
 
         assert self._name in ds.variables.keys(), "variable does not exist, should have been created earlier!"
 
-        # add attributes
-        if hasattr(dima,'attrs'):
-            self.attrs.update(dima.attrs)
-            self.attrs.update(cf_attrs) # calendar?
-
         # special case: index == slice(None) and self.ndim == 0
         # This would fail with numpy, but not with netCDF4
         if type(indices) is slice and indices == slice(None) and self.ndim == 0:
             indices = ()
 
         indices = self._get_indices(indices,axis=axis, indexing=indexing, tol=tol)
+
+        # add attributes, when the whole variable is written (a piece assigned to a part of the
+        # variable leaves its metadata alone, like an assignment in memory)
+        if hasattr(dima,'attrs') and all(type(ix) is slice and ix == slice(None) for ix in indices):
+            self.attrs.update(dima.attrs)
+            self.attrs.update(cf_attrs) # calendar?
 
         # Perform additional checks on axes if the Data to assign is a DimArray
         if isinstance(dima, DimArray):
@@ -502,8 +516,9 @@ class DimArrayOnDisk(GetSetDelAttrMixin, NetCDFVariable, AbstractDimArray):
                 if ax.name not in dima.dims:
                     continue # dimension collapsed by a scalar index
                 axis = dima.axes[ax.name]
-                # write unlimited dimensions
-                if self._ds.dimensions[ax.name].isunlimited():
+                # write unlimited dimensions, when the assignment extends them (or writes them whole);
+                # within their current bounds they are checked like any other dimension
+                if self._ds.dimensions[ax.name].isunlimited() and not _within_bounds(idx, len(self._ds.dimensions[ax.name]), axis.size):
                     self.axes[ax.name][idx] = axis
                 else:
                     # dimension variable already written, simple check
